@@ -201,7 +201,7 @@ CHECKS = {
     "C18": dict(
         text="Coq theorems: percent-encoding then form-decoding is the identity on every byte string (C18_hash_roundtrip, 256-value and "
              "16-digit sweeps lifted by forallb_forall + induction) and the encoding never contains '&', '=', '?', '#' "
-             "(C18_hash_safe); create_url = announce ++ one separator ++ info_hash=... with '&' iff a query exists (C18_url_shape). "
+             "(C18_hash_safe), so create_url is injective in the hash (C18_hash_injective); create_url = announce ++ one separator ++ info_hash=... with '&' iff a query exists (C18_url_shape). "
              "Tie: the real TrackerClient::run against a loopback HTTP listener; the request line is read back and parsed by an "
              "independent oracle (path and original parameters kept; info_hash, peer_id, port, left right). Genuine defect "
              "(second '?') found and repaired.",
